@@ -6,6 +6,7 @@ package server
 
 import (
 	"fmt"
+	"os"
 	"sort"
 	"testing"
 	"testing/synctest"
@@ -31,6 +32,12 @@ type c09Plan struct {
 	// for that long while probing goes on) and resumed again
 	DrainAt int `json:"drain_at"`
 	DrainMs int `json:"drain_ms"`
+	// Restart: the proxy is restarted from its state file right after the deploy; everything else happens on the
+	// restored proxy (whose targets are presumed healthy until their first probe)
+	Restart bool `json:"restart,omitempty"`
+	// RestoreSlow: the restoring goroutine is held just before it presumes the restored targets healthy until the
+	// bubble is idle (whatever probes were already started have been answered by then)
+	RestoreSlow bool `json:"restore_slow,omitempty"`
 }
 
 func c09Gen(t *rapid.T) c09Plan {
@@ -75,6 +82,8 @@ func c09Gen(t *rapid.T) c09Plan {
 		}
 		p.Events = append(p.Events, ev)
 	}
+	p.Restart = rapid.IntRange(0, 3).Draw(t, "restart") == 0
+	p.RestoreSlow = p.Restart && rapid.Bool().Draw(t, "restore-slow")
 	p.DrainAt = -1
 	if rapid.IntRange(0, 2).Draw(t, "drain-episode") == 0 {
 		p.DrainAt = rapid.IntRange(0, ne-1).Draw(t, "drain-at")
@@ -127,16 +136,57 @@ func c09Run(t *testing.T, p c09Plan) (res vfResult) {
 			names = append(names, n)
 			tgs = append(tgs, w.target(n))
 		}
-		if err := r.DeployService("svc", names, opts, to, 5*time.Second, time.Second); err != nil {
+		if err := vfDeploy(r, "svc", names, opts, to, 5*time.Second, time.Second); err != nil {
 			res.failf("setup-failed", "deploy failed: %v", err)
 			return
 		}
 		synctest.Wait()
+		var r2 *Router
+		if p.Restart {
+			raw, err := os.ReadFile(r.statePath)
+			if err != nil {
+				res.failf("no-state-file", "%v", err)
+				return
+			}
+			os.WriteFile(w.statePath("r2"), raw, 0o644)
+			r2 = NewRouter(w.statePath("r2"))
+			w.adopt(r2)
+			if err := vfRemove(r, "svc"); err != nil { // the old process is gone, and its probing with it
+				res.failf("setup-failed", "remove: %v", err)
+				return
+			}
+			synctest.Wait()
+		}
 		base := w.now()
 		logBase := make([]int, p.N)
 		for i, tg := range tgs {
 			tg.setProbeScript(p.Scripts[i], p.Defaults[i])
 			logBase[i] = len(tg.probeLog())
+		}
+		if p.Restart {
+			var rerr error
+			if p.RestoreSlow {
+				sc := newVFSched(w, []string{"lb.mark-all-healthy"}, nil)
+				sc.spawn("restore", func() { rerr = r2.RestoreLastSavedState() })
+				for guard := 0; !sc.isFinished("restore") && guard < 100; guard++ {
+					synctest.Wait()
+					for _, a := range sc.parkedActors() {
+						sc.release(a)
+					}
+				}
+				sc.stop()
+				vfCurSched.Store(nil)
+				res.label("restore-held-before-presuming-health")
+			} else {
+				rerr = r2.RestoreLastSavedState()
+			}
+			if rerr != nil {
+				res.failf("restore-failed", "restore: %v", rerr)
+				return
+			}
+			r = r2
+			synctest.Wait()
+			res.label("restarted-from-state-file")
 		}
 		timeout := vfMs(p.ProbeTimeoutMs)
 
@@ -185,16 +235,16 @@ func c09Run(t *testing.T, p c09Plan) (res vfResult) {
 				long := w.goDo(r, vfNewRequest("GET", "any.host", "/long", &vfCtl{ID: "long", DurMs: p.DrainMs}, nil))
 				synctest.Wait()
 				if !long.finished() { // (with no healthy target the request is answered 503 at once: no drain then)
-					if cr := w.runCmd(func() error { return r.PauseService("svc", time.Minute, time.Minute) }); cr.Err != nil || cr.Panicked != "" {
+					if cr := w.runCmd(func() error { return vfPause(r, "svc", time.Minute, time.Minute) }); cr.Err != nil || cr.Panicked != "" {
 						res.failf("setup-failed", "pause: %v %s", cr.Err, cr.Panicked)
 						return
 					}
 					res.label("drain-episode")
 				} else {
-					r.PauseService("svc", time.Minute, time.Minute)
+					vfPause(r, "svc", time.Minute, time.Minute)
 				}
 				<-long.done
-				if cr := w.runCmd(func() error { return r.ResumeService("svc") }); cr.Err != nil || cr.Panicked != "" {
+				if cr := w.runCmd(func() error { return vfResume(r, "svc") }); cr.Err != nil || cr.Panicked != "" {
 					res.failf("setup-failed", "resume: %v %s", cr.Err, cr.Panicked)
 					return
 				}
@@ -313,6 +363,9 @@ func c09Run(t *testing.T, p c09Plan) (res vfResult) {
 			// more ticks - immediately when that probe completes (one tick is kept in reserve).
 			full := tg.probeLog()
 			origin := full[0].At
+			if p.Restart {
+				origin = lg[0].At // the restored proxy's own grid
+			}
 			for j := 1; j < len(lg); j++ {
 				gap := lg[j].At - lg[j-1].At
 				prevDur := dur(lg[j-1])
